@@ -663,8 +663,17 @@ class Exec:
         # content (sequence names in file order, number of residues of each) must be what
         # the scanner reports, or "the index of the current content" means nothing
         for v in range(len(self.blobs)):
-            want = [(r["name"], len(r["seq"])) for r in self.case["contents"][v]["records"]]
-            got = [(t[0], t[1]) for t in self.reference(v)[0]]
+            # (name, residues, offset of the first residue, residues on the first line, that line with its ending)
+            offs, pos = [], 0
+            for ln in self.blobs[v].splitlines(keepends=True):
+                pos += len(ln)
+                if ln[:1] == b">":
+                    offs.append(pos)
+            want = []
+            for k, r in enumerate(self.case["contents"][v]["records"]):
+                rpl = min(r["width"], len(r["seq"]))
+                want.append((r["name"], len(r["seq"]), offs[k], rpl, rpl + (2 if r["crlf"] else 1)))
+            got = [tuple(t) for t in self.reference(v)[0]]
             if got != want:
                 bad = next((k for k, (a, b) in enumerate(zip(got, want)) if a != b), min(len(got), len(want)))
                 self.violate("O6_scan_disagrees_with_content", "reference",
